@@ -160,7 +160,7 @@ def gen_fault(r, units, is_text):
             f['unit'] = r.choice(ALPHABET_TEXT) if is_text else r.choice(ALPHABET_BYTES)
         else:
             f['at'] = q
-            f['times'] = r.choice([24, 30, 40, 64, 300, 1200])
+            f['times'] = r.choice([24, 30, 40, 64, 300, 1200, 5000])
             f['tail'] = r.choice(['G', '-', 'x', '_', '.', ':', 'z', '']) if r.random() < 0.7 else None
     elif kind == 'repeatitem':
         # message duplication at record granularity: one item of a flow collection / one line repeated many times
@@ -337,7 +337,10 @@ def base_payload(r, rd):
         # tiny recursive documents (an anchor on a collection that contains its own alias): whatever walks
         # a node graph must cope with cycles, also when a fault multiplies the aliases
         text = rd.choice(['&a [x, *a, *a, y]\n', '--- &m {k: *m, j: [*m, *m]}\n', '- &a [*a]\n- *a\n- *a\n', '&a\n- *a\n- *a\n- b: *a\n',
-                          '? &k [*k]\n: *k\n', '&a [&b {x: *a, y: *b}, *b, *a, *a]\n'])
+                          '? &k [*k]\n: *k\n', '&a [&b {x: *a, y: *b}, *b, *a, *a]\n',
+                          # aliases and anchors next to collection keys (defined, undefined, on the key itself)
+                          '[a, b]: *missing\n', '? - foo\n  - bar\n: *baz\n', '--- &x one\n--- {? {sea: green} : *x}\n',
+                          '? &k {a: b}\n: *k\n? *k\n: c\n', '{[a, *u]: v}\n', '&a [x]: *a\n', '- ? [*a]\n  : &a b\n'])
         return ('recursive', text, True) if rd.random() < 0.5 else ('recursive', text.encode('utf-8'), False)
     if x < 0.11:
         # small layouts the corpus does not contain: a quoted scalar that spans lines, its last line at an
